@@ -20,12 +20,19 @@ def Prim.setsDeadline : Prim → Bool
   | .setExpiry _ (some _) _ => true
   | _ => false
 
-/-- the program never gives a key a deadline (syntactically: no `SetExpiry key (some t)` primitive) -/
+/-- what a primitive can answer on a keyspace without deadlines: GetExpiry answers "no deadline" -/
+def Prim.answerNoDl : (p : Prim) → p.Res → Prop
+  | .getExpiry _, r => r = none
+  | _, _ => True
+
+/-- the program never gives a key a deadline on a keyspace without deadlines: no `SetExpiry key (some t)`
+    primitive on any path along which every GetExpiry answered "no deadline" (RENAME hands the deadline it
+    read from the source on to SetExpiry, so its SetExpiry carries a time only if a key had one) -/
 def Prog.NoSetDeadline {α : Type} : Prog α → Prop
   | .ret _ => True
   | .panic _ => True
   | .unmod _ => True
-  | .call p k => p.setsDeadline = false ∧ ∀ r, (k r).NoSetDeadline
+  | .call p k => p.setsDeadline = false ∧ ∀ r, p.answerNoDl r → (k r).NoSetDeadline
 
 /-- two contexts that agree on everything a primitive other than the clock-dependent lazy expiry
     reads: the selected database, the configuration and the caller -/
@@ -295,6 +302,25 @@ theorem exec_noDeadlines (c : Ctx) (s : State) (p : Prim) (s' : State) (r : p.Re
     (hp : p.setsDeadline = false) (h : s.NoDeadlines) (hx : p.exec c s = some (s', r)) : s'.NoDeadlines :=
   exec_noDeadlines' c s p hp h (s', r) hx
 
+theorem exec_answerNoDl' (c : Ctx) (s : State) (p : Prim) (h : s.NoDeadlines) :
+    ∀ sr, p.exec c s = some sr → p.answerNoDl sr.2 := by
+  cases p with
+  | getExpiry k =>
+    intro sr hx
+    simp only [Prim.exec, Option.some.injEq] at hx
+    rw [← hx]
+    show getExpiry s c.db k = none
+    unfold getExpiry
+    cases hl : s.lookup c.db k with
+    | none => rfl
+    | some e => exact h _ _ _ hl
+  | _ => intro _ _; trivial
+
+/-- on a keyspace without deadlines GetExpiry answers "no deadline" -/
+theorem exec_answerNoDl (c : Ctx) (s : State) (p : Prim) (s' : State) (r : p.Res)
+    (h : s.NoDeadlines) (hx : p.exec c s = some (s', r)) : p.answerNoDl r :=
+  exec_answerNoDl' c s p h (s', r) hx
+
 /-! ### the clock is irrelevant -/
 
 /-- on a keyspace without deadlines a primitive that sets no deadline does the same whatever the clock
@@ -327,7 +353,7 @@ theorem run_now_irrelevant {α : Type} (c c' : Ctx) (hc : c.SameButClock c') (p 
     | none => exact ⟨rfl, h⟩
     | some sr =>
       obtain ⟨s', r⟩ := sr
-      exact ih r s' (hp2 r) (exec_noDeadlines c s q s' r hp1 h hx)
+      exact ih r s' (hp2 r (exec_answerNoDl c s q s' r h hx)) (exec_noDeadlines c s q s' r hp1 h hx)
 
 /-! ### the same under the cluster interpreter -/
 
@@ -357,6 +383,20 @@ theorem execCl_noDeadlines (role : Raft.Role) (c : Ctx) (s : State) (p : Prim) (
         · rename_i heq; injection hx with h1 h2; subst h1; subst h2; exact heq
     exact exec_noDeadlines c s p s' r hp h hx'
 
+theorem execCl_answerNoDl (role : Raft.Role) (c : Ctx) (s : State) (p : Prim) (s' : State) (r : p.Res)
+    (h : s.NoDeadlines) (hx : Raft.execCl role c s p = .ok s' r) : p.answerNoDl r := by
+  by_cases hg : ∃ ks, p = .getValues ks
+  · obtain ⟨ks, rfl⟩ := hg; trivial
+  · have hx' : p.exec c s = some (s', r) := by
+      cases p with
+      | getValues ks => exact absurd ⟨ks, rfl⟩ hg
+      | _ =>
+        simp only [Raft.execCl] at hx
+        split at hx
+        · cases hx
+        · rename_i heq; injection hx with h1 h2; subst h1; subst h2; exact heq
+    exact exec_answerNoDl c s p s' r h hx'
+
 theorem runCl_now_irrelevant {α : Type} (role : Raft.Role) (c c' : Ctx) (hc : c.SameButClock c') (p : Prog α) :
     ∀ (s : State), p.NoSetDeadline → s.NoDeadlines →
       Raft.runCl role c p s = Raft.runCl role c' p s ∧ (Raft.runCl role c p s).1.NoDeadlines := by
@@ -372,6 +412,6 @@ theorem runCl_now_irrelevant {α : Type} (role : Raft.Role) (c c' : Ctx) (hc : c
     cases hx : Raft.execCl role c s q with
     | panic => exact ⟨rfl, h⟩
     | hang => exact ⟨rfl, h⟩
-    | ok s' r => exact ih r s' (hp2 r) (execCl_noDeadlines role c s q s' r hp1 h hx)
+    | ok s' r => exact ih r s' (hp2 r (execCl_answerNoDl role c s q s' r h hx)) (execCl_noDeadlines role c s q s' r hp1 h hx)
 
 end Sugar
